@@ -20,7 +20,13 @@
 (* Reference [rk, to, aux]: rk names the reference site (its prefix the    *)
 (* index it is looked up in), `to` the target name, aux the block name of  *)
 (* a blockaddress / uselistorder_bb reference or the incoming value of a   *)
-(* phi predecessor ("" = a constant).                                      *)
+(* phi predecessor ("" = a constant); for a comdat reference aux =         *)
+(* "implicit" is the bare `comdat` spelling (the comdat named after the    *)
+(* global).  Local kinds (lk): param, block (its l.target references are   *)
+(* the br that ends it), inst, void (a call), invoke, lpad, and the funclet *)
+(* forms catchswitch (l.target = handlers, l.unwind), catchpad / cleanuppad *)
+(* (l.within = parent pad or none), catchret (l.within, l.target),         *)
+(* cleanupret (l.within, l.unwind or "to caller").                         *)
 (***************************************************************************)
 EXTENDS Integers, Sequences, FiniteSets, TLC
 
@@ -45,6 +51,8 @@ NamedMd(n, refs) == Ent("nmd", n, "", refs, <<>>)
 Md(n, refs)      == Ent("md", n, "tuple", refs, <<>>)
 MdDistinct(n, refs) == Ent("md", n, "distinct", refs, <<>>)
 MdDI(n, refs)    == Ent("md", n, "di", refs, <<>>)          \* a specialised node: !DIDerivedType(baseType: .., scope: ..)
+MdExpr(n)        == Ent("md", n, "diexpr", <<>>, <<>>)      \* a NUMBERED !DIExpression (LLVM prints them inline, accepts them numbered)
+MdArr(n, refs)   == Ent("md", n, "diarr", refs, <<>>)       \* !DICompositeType(tag: DW_TAG_array_type, dataLocation: .., associated: ..)
 Ulo(to)          == Ent("ulo", "", "", <<Ref("g.ulo", to)>>, <<>>)
 UloBA(f, b)      == Ent("ulo", "", "", <<RefX("l.baddr", f, b)>>, <<>>)   \* uselistorder i8* blockaddress(@f, %b), ...
 GlobalAS(n, refs) == Ent("global", n, "as1", refs, <<>>)                 \* a global in address space 1
@@ -58,7 +66,7 @@ RefClass(rk) ==
     [] rk \in {"c.global", "c.func"} -> "comdat"
     [] rk \in {"a.func", "a.call"} -> "attr"
     [] rk \in {"m.attach", "m.tuple", "m.named", "m.difield"} -> "md"
-    [] rk \in {"l.operand", "l.target", "l.phipred"} -> "local"
+    [] rk \in {"l.operand", "l.target", "l.phipred", "l.unwind", "l.within"} -> "local"
     [] rk \in {"l.baddr", "l.ulobb"} -> "block"      \* to = function, aux = block
 \* references that are part of the scaffold (resolved when the global entity is created)
 IsSigRef(rk) == rk \in {"ty.global", "ty.sig"}
@@ -66,9 +74,13 @@ IsSigRef(rk) == rk \in {"ty.global", "ty.sig"}
 ----------------------------------------------------------------------------
 \* All names used by the patterns, in natural order; bytes given for the cross-check
 \* against NatSort!RefLess (ASSUME NamesSorted in Translate.tla).
-NameOrder == <<"0", "1", "2", "7", "10", "a", "a2", "a9", "a10", "b", "bb", "c", "entry", "f", "g", "h", "m", "p", "r", "x", "y">>
+\* "$t", "-t", ".t" sort below every digit; "t$x" extends "t" with the one unquoted character below ')';
+\* "z z" must be written quoted (%"z z", $"z z")
+NameOrder == <<"$t", "-t", ".t", "0", "1", "2", "7", "10", "a", "a2", "a9", "a10", "b", "bb", "c", "entry", "f", "g", "h", "m", "p", "r", "t", "t$x", "x", "y", "z z">>
 NameBytes == [i \in 1..Len(NameOrder) |->
-  CASE NameOrder[i] = "0" -> <<48>> [] NameOrder[i] = "1" -> <<49>> [] NameOrder[i] = "2" -> <<50>>
+  CASE NameOrder[i] = "$t" -> <<36, 116>> [] NameOrder[i] = "-t" -> <<45, 116>> [] NameOrder[i] = ".t" -> <<46, 116>>
+    [] NameOrder[i] = "t" -> <<116>> [] NameOrder[i] = "t$x" -> <<116, 36, 120>> [] NameOrder[i] = "z z" -> <<122, 32, 122>>
+    [] NameOrder[i] = "0" -> <<48>> [] NameOrder[i] = "1" -> <<49>> [] NameOrder[i] = "2" -> <<50>>
     [] NameOrder[i] = "7" -> <<55>> [] NameOrder[i] = "10" -> <<49, 48>>
     [] NameOrder[i] = "a" -> <<97>> [] NameOrder[i] = "a2" -> <<97, 50>> [] NameOrder[i] = "a9" -> <<97, 57>>
     [] NameOrder[i] = "a10" -> <<97, 49, 48>> [] NameOrder[i] = "b" -> <<98>> [] NameOrder[i] = "bb" -> <<98, 98>>
@@ -155,6 +167,41 @@ Patterns == <<
   \* 20: five attribute groups out of order, each used
   << Attr("7"), Attr("0"), Attr("10"), Attr("2"), Attr("1"), Decl("f", <<Ref("a.func", "10"), Ref("a.func", "0")>>),
      Decl("g", <<Ref("a.func", "7"), Ref("a.func", "2"), Ref("a.func", "1")>>) >>,
+  \* 21: numbered types next to type names that sort below '0', a prefix pair continuing with '$', a quoted name
+  << TStruct("t", <<>>), TStruct("10", <<>>), TStruct(".t", <<Ref("ty.field", "0")>>), TStruct("0", <<>>), TStruct("z z", <<>>), TStruct("$t", <<>>),
+     TStruct("t$x", <<Ref("ty.field", "z z")>>), TStruct("1", <<>>), TStruct("-t", <<>>), Global("g", <<Ref("ty.global", "t$x")>>) >>,
+  \* 22: comdats with such names, each used; the implicit spelling `comdat` (comdat named after the global)
+  << Comdat("t"), Comdat("z z"), Comdat("t$x"), Comdat("$t"), Comdat("10"), Comdat(".t"), Comdat("f"), Comdat("g"),
+     Global("g", <<RefX("c.global", "g", "implicit")>>), Global("h", <<Ref("c.global", "t$x")>>), Global("a", <<Ref("c.global", "z z")>>),
+     Global("b", <<Ref("c.global", "$t")>>), Global("x", <<Ref("c.global", "t")>>),
+     Def("f", <<RefX("c.func", "f", "implicit")>>, << Loc("entry", "block", <<>>) >>), Global("p", <<Ref("c.global", ".t")>>), Global("r", <<Ref("c.global", "10")>>),
+     Global("10", <<RefX("c.global", "10", "implicit")>>) >>,       \* @"10": a NAME made of digits, in the comdat of the same name
+  \* 23: funclet exception handling: every label and pad reference of catchswitch / catchpad / catchret / cleanuppad / cleanupret
+  << Decl("h", <<>>), Decl("p", <<>>),
+     Def("f", <<Ref("g.personality", "p")>>, << Loc("entry", "block", <<>>),
+        Loc("", "invoke", <<Ref("g.callee", "h"), Ref("l.target", "r"), Ref("l.target", "c")>>),
+        Loc("c", "block", <<>>), Loc("a", "catchswitch", <<Ref("l.target", "b"), Ref("l.unwind", "x")>>),
+        Loc("b", "block", <<>>), Loc("g", "catchpad", <<Ref("l.within", "a")>>), Loc("", "catchret", <<Ref("l.within", "g"), Ref("l.target", "r")>>),
+        Loc("x", "block", <<>>), Loc("m", "cleanuppad", <<>>), Loc("", "cleanupret", <<Ref("l.within", "m"), Ref("l.unwind", "y")>>),
+        Loc("y", "block", <<>>), Loc("bb", "cleanuppad", <<>>), Loc("", "cleanupret", <<Ref("l.within", "bb")>>),
+        Loc("r", "block", <<>>) >>) >>,
+  \* 24: blockaddress of the equally named block of ANOTHER UNNAMED function, as an instruction operand (one direction only:
+  \*     the use counts of the two functions must differ)
+  << Def("", <<>>, << Loc("entry", "block", <<Ref("l.target", "bb")>>), Loc("bb", "block", <<>>), Loc("x", "inst", <<RefX("l.baddr", "@1", "bb")>>) >>),
+     Def("", <<>>, << Loc("entry", "block", <<Ref("l.target", "bb")>>), Loc("bb", "block", <<>>), Loc("x", "inst", <<>>) >>),
+     Global("g", <<RefX("l.baddr", "@1", "bb")>>) >>,
+  \* 25: a numbered !DIExpression referenced from a debug-info field, a tuple and named metadata
+  << NamedMd("m", <<Ref("m.named", "2"), Ref("m.named", "1")>>), MdArr("1", <<Ref("m.difield", "2"), Ref("m.difield", "7")>>), MdExpr("2"), MdExpr("7"),
+     Md("0", <<Ref("m.tuple", "2"), Ref("m.tuple", "1")>>), Global("g", <<Ref("m.attach", "7")>>) >>,
+  \* 26: unnamed globals and functions AFTER attribute-group and metadata definitions with other IDs (the counters are separate)
+  << Attr("7"), Md("2", <<>>), Global("", <<Ref("m.attach", "2")>>), Def("", <<Ref("a.func", "7")>>, << Loc("entry", "block", <<>>) >>),
+     Md("10", <<Ref("g.mdvalue", "@1")>>), Global("g", <<Ref("g.init", "@1")>>), Global("", <<Ref("g.init", "@0")>>), Attr("1"),
+     Global("", <<Ref("g.init", "@2")>>), NamedMd("m", <<Ref("m.named", "10")>>) >>,
+  \* 27: blockaddress constants inside metadata nodes, next to ones in a global and in a function (all join the same fix-up list)
+  << Md("1", <<RefX("l.baddr", "f", "bb")>>), Global("g", <<RefX("l.baddr", "f", "bb")>>), Md("0", <<RefX("l.baddr", "h", "bb"), Ref("m.tuple", "1")>>),
+     Def("f", <<>>, << Loc("entry", "block", <<Ref("l.target", "bb")>>), Loc("bb", "block", <<>>), Loc("x", "inst", <<RefX("l.baddr", "h", "bb")>>) >>),
+     Def("h", <<Ref("m.attach", "0")>>, << Loc("entry", "block", <<Ref("l.target", "bb")>>), Loc("bb", "block", <<>>) >>),
+     NamedMd("m", <<Ref("m.named", "0"), Ref("m.named", "1")>>) >>,
   \* 18: the type of a global (address space) read through a use in another global's initialiser
   << GlobalAS("g", <<>>), Global("h", <<Ref("g.cmp", "g")>>), Global("a", <<Ref("g.cmp", "g")>>), Alias("b", <<Ref("g.aliasee", "g")>>) >>
 >>
